@@ -8,7 +8,7 @@ import itertools
 from mc import lib
 
 PROPERTY = 'C17'
-RULE = ('full product: every sorted list (multiset) A of length 0..L over the grid {100,100.25,100.5,101,102,200} x every '
+RULE = ('full product: every sorted list (multiset) A of length 0..L over the grid {50,100,100.25,100.5,101,102,200} x every '
         'such list B x {th: 0,0.25,0.5,1,150; ppm: 0,2500,5000,10000,1e6} x {all,closest,largest} x every intensity '
         'assignment over {0,1,2,5}; fragment layer: every subset of <=3 of 6 real fragments in every order x every subset '
         'of <=3 of 6-8 peaks (one duplicate m/z, one zero intensity) in every order x tolerance x mode; a state = one list A (all B inside); non-trivial = A '
@@ -18,7 +18,7 @@ ASSUMPTIONS = ['window bounds are computed with the expression of the statement 
                'coverage clause is evaluated where every fragment has at most one matched peak (both readings of '
                '"once" coincide there); intensity-share clause on spectra without duplicate m/z values']
 
-GRID = [100.0, 100.25, 100.5, 101.0, 102.0, 200.0]
+GRID = [50.0, 100.0, 100.25, 100.5, 101.0, 102.0, 200.0]   # 50: a theoretical value beyond twice the last peak
 TH = [0.0, 0.25, 0.5, 1.0, 150.0]
 PPM = [0.0, 2500.0, 5000.0, 10000.0, 1e6]
 INT = [0.0, 1.0, 2.0, 5.0]   # 0: profile-mode spectra carry zero-intensity points
@@ -39,6 +39,7 @@ def shards(tier):
     out = [{'kind': 'pairs', 'a': a} for a in lists(L)]
     out += [{'kind': 'frag', 'nf': nf, 'first': i} for nf in (1, 2, 3) for i in range(6)]
     out += [{'kind': 'frag', 'nf': nf, 'first': i, 'family': 'iso'} for nf in (2, 3) for i in range(6)]
+    out += [{'kind': 'frag', 'nf': nf, 'first': i, 'family': 'mixed'} for nf in (2, 3) for i in range(6)]
     out.append({'kind': 'frag0'})
     return out
 
@@ -129,6 +130,14 @@ def check(case, ctx):
             peaks_all = [base[0] + 0.1, base[0] + 0.4, base[1] + 0.3, base[3] + 0.05, base[3] + 0.45, 5000.0]
             ints_all = [1.0, 2.0, 5.0, 2.0, 1.0, 5.0]
             tolerances = (('th', 0.3), ('th', 0.6), ('th', 1.2), ('ppm', 3000.0))
+        elif case.get('family') == 'mixed':
+            # singly and doubly charged ions of the same spans: ordering by m/z differs from ordering by mass
+            frs_all = p.fragment('PEPK', ['b', 'y'], [1, 2])
+            frs_all = sorted(frs_all, key=lambda f: (f.ion_type, f.start, f.end, f.charge))[2:8]
+            base = sorted(f.mz for f in frs_all)
+            peaks_all = [base[0] + 0.1, base[1], base[2] - 0.2, base[3] + 0.05, base[4] + 0.3, base[5], 5000.0]
+            ints_all = [1.0, 2.0, 5.0, 2.0, 1.0, 5.0, 3.0]
+            tolerances = (('th', 0.0), ('th', 0.3), ('ppm', 3000.0))
         else:
             frs_all = p.fragment('PEPK', ['b', 'y'], 1)   # real Fragment objects: b4,b3,b2,b1,y4..y1
             frs_all = sorted(frs_all, key=lambda f: (f.ion_type, f.start, f.end))[:6]
